@@ -131,6 +131,8 @@ TWINS = [
     ('dq-sub-reversed', 'C12', 'DualQuaternion.py', 'return DualQuaternion(left.real - right.real, left.dual - right.dual)', 'return DualQuaternion(left.real - right.real, right.dual - left.dual)', 'R16', 'DualQuaternion.__sub__'),
     ('accessor-a-short', 'C09', 'pose3d.py', '        return self.A[:3, 2]', '        return self.A[:2, 2]', 'R8', 'SO3.a'),
     ('accessor-t-both-arms', 'C09', 'pose3d.py', '            return self.A[:3, 3]\n        else:\n            return np.array([x[:3, 3] for x in self.A])', '            return self.A[:3, 2]\n        else:\n            return np.array([x[:3, 2] for x in self.A])', 'R8', 'SE3.t'),
+    ('rpy-list-arm-drops-unit', 'C15', 'pose3d.py', '            return cls([base.rpy2tr(a, order=order, unit=unit) for a in angles], check=False)', '            return cls([base.rpy2tr(a, order=order) for a in angles], check=False)', 'R10c', 'SE3.RPY'),
+    ('eul-list-arm-drops-unit', 'C15', 'pose3d.py', '            return cls([base.eul2r(a, unit=unit) for a in angles], check=False)', '            return cls([base.eul2r(a) for a in angles], check=False)', 'R10c', 'SO3.Eul'),
     ('cross-entry', 'C13', 'base/vectors.py', '        u[2] * v[0] - u[0] * v[2],', '        u[0] * v[2] - u[2] * v[0],', 'R16', 'cross'),
     ('tr2jac-notranspose', 'C13', 'base/transforms3d.py', '        return np.block([[R.T, Z], [Z, R.T]])', '        return np.block([[R, Z], [Z, R]])', 'R16', 'tr2jac'),
     # ---- C14
